@@ -110,6 +110,14 @@ CLAIMED["C16"] = dict(
     technique="CrossHair (z3) on the real CLI script with symbolic option arguments",
 )
 
+CLAIMED["C06"] = dict(
+    category="translation_validation",
+    text="Scope trees (module + nested function/class/lambda/comprehension scopes, one role per scope for the tracked name from the complete role catalogue, every binding site storing a distinct symbolic value) are converted by the real converter and co-executed with the source under CrossHair: every read in every scope and the final globals must coincide for all values.",
+    design_ref="DESIGN.md section 4, C06",
+    note="Bounds: depth 1 exhaustive, depth-2 chains (13 710), two-children trees incl. nested expression scopes (3 318), a fixed pool of 6 000 depth-3 trees; programs CPython rejects/raises on are outside. Known findings listed by explicit program (known/KF-C06-*.txt, 140 of 16 269 valid programs). Programs that hit the CPython 3.12/3.13 comprehension-inlining leak are excluded (source itself misbehaves).",
+    technique="symbolic co-execution of source and converted text under CrossHair (z3)",
+)
+
 NOT_YET = {}
 
 NOT_APPLICABLE = {
